@@ -207,25 +207,3 @@ strtol(const char *s, char **end, int base)
     return (v > (unsigned long) LONG_MAX) ? LONG_MAX : (long) v;
 }
 #endif
-
-#ifndef REPLAY
-/* CBMC's built-in memmove model (array_copy/array_replace through a VLA) was observed to leave the
- * destination unchanged for an 8-byte overlapping move inside a heap array of pointers (C02 array
- * remove: counterexample not reproducible natively).  Plain element loop through a bounded temporary;
- * moves longer than the temporary are outside every bound used here and fail the assertion. */
-void *
-memmove(void *dest, const void *src, size_t n)
-{
-    unsigned char tmp[160];
-    size_t i;
-
-    __CPROVER_assert(n <= sizeof(tmp), "memmove model: length within the modelled bound");
-    for (i = 0; i < n && i < sizeof(tmp); i++) {
-        tmp[i] = ((const unsigned char *) src)[i];
-    }
-    for (i = 0; i < n && i < sizeof(tmp); i++) {
-        ((unsigned char *) dest)[i] = tmp[i];
-    }
-    return dest;
-}
-#endif
